@@ -119,6 +119,13 @@ EXTRA.update({
     "clone-multiline-chain.rs": ("rust", "clone-abuse", (3, 5),
                                  "fn copy(items: &Vec<String>) {\n    for it in items {\n        let kept = it\n            .clone()\n            .clone();\n        drop(kept);\n    }\n}\n"),
 })
+# many multi-byte characters before the construct on its own line: byte offsets overtake character positions
+_ACC = "\u00e9" * 30
+EXTRA.update({
+    "nonascii-prefix.rs": ("rust", "unwrap-abuse", 2, "fn port(y: Option<u16>) -> u16 {\n    /* %s */ let v = y.unwrap();\n    v\n}\n" % _ACC),
+    "nonascii-prefix.py": ("python", "improper-logging", 2, "def show(x):\n    s = \"%s\"; print(x)\n    return s\n" % _ACC),
+    "nonascii-prefix.ts": ("typescript", "magic-numbers.numeric-literal", 2, "function wait(q: number): number {\n  const s = \"%s\"; return q * 3975;\n}\n" % _ACC),
+})
 _P = {}
 _TIER = {"t": "quick"}
 
